@@ -1,6 +1,9 @@
 import RV.Proofs.Rotation
+import RV.Proofs.RotationAxes
 import RV.Proofs.Frame
 import RV.Proofs.Units
+import Mathlib.Analysis.Real.Sqrt
+import Mathlib.Analysis.SpecialFunctions.Trigonometric.Inverse
 /-
   C20 — changes of units and of reference frame are exact symmetries.
 
@@ -11,8 +14,8 @@ import RV.Proofs.Units
       every run (RV/Gen/C20Units.lean), compared with the committed independent reference;
     * rotations: any field for the algebra; a linearly ordered field with an abstract
       `sqrt`, `sin`, `cos` for the constructors, the hypotheses `SqrtSpec` / `TrigSpec`
-      saying exactly what is used of them (`example`s below: ℚ-free instance over the
-      rationals is impossible for sqrt, so satisfiability is shown on concrete values);
+      saying exactly what is used of them; section 7 instantiates them at ℝ with
+      `Real.sqrt`, `Real.sin`, `Real.cos`;
     * frame shifts: any linearly ordered field, every number of particles.
 -/
 set_option linter.unusedTactic false
@@ -22,15 +25,16 @@ set_option linter.unusedVariables false
 set_option linter.unusedSimpArgs false
 set_option linter.unusedSectionVars false
 
+namespace RV.C20
+open RV RV.Units RV.Rot RV.Frame RV.Gen.C20
+
 /-! ## 1. units: algebra (any field, hence every unit triple) -/
-namespace RV.Units
-open RV
 section
 variable {K : Type} [Field K]
 
 /-- `convert_G` yields `G_SI · M · T² / L³` -/
 theorem c20_convertG_formula (g L T M : K) : convertG g L T M = g * M * T ^ 2 / L ^ 3 := by
-  simp only [convertG, sc_hmul, sc_hdiv]; ring
+  simp only [convertG, p_powi, sc_hmul, sc_hdiv]
 
 /-- the SI system itself has `G = G_SI` -/
 theorem c20_convertG_SI (g : K) : convertG g 1 1 1 = g := by
@@ -43,7 +47,7 @@ theorem c20_newton_covariant (g m r L T M L' T' M' : K)
     (hL : L ≠ 0) (hT : T ≠ 0) (hM : M ≠ 0) (hL' : L' ≠ 0) (hT' : T' ≠ 0) (hM' : M' ≠ 0) (hr : r ≠ 0) :
     convertAcc (convertG g L T M * m / (r * r)) L T L' T' =
       convertG g L' T' M' * convertMass m M M' / (convertLength r L L' * convertLength r L L') := by
-  simp only [convertAcc, convertG, convertMass, convertLength, sc_hmul, sc_hdiv]
+  simp only [convertAcc, convertG, convertMass, convertLength, p_powi, sc_hmul, sc_hdiv]
   field_simp
 
 /-- conversion of particle data is transitive: a → b → c equals a → c -/
@@ -51,7 +55,7 @@ theorem c20_convert_transitive (p : PData K) (aL aT aM bL bT bM cL cT cM : K)
     (hL : bL ≠ 0) (hT : bT ≠ 0) (hM : bM ≠ 0) :
     convertParticle (convertParticle p aL aT aM bL bT bM) bL bT bM cL cT cM =
       convertParticle p aL aT aM cL cT cM := by
-  simp only [convertParticle, convertMass, convertLength, convertVel, convertAcc, sc_hmul, sc_hdiv]
+  simp only [convertParticle, convertMass, convertLength, convertVel, convertAcc, p_powi, sc_hmul, sc_hdiv]
   congr 1 <;> field_simp
 
 /-- conversion of particle data is reversible: a → b → a is the identity -/
@@ -59,7 +63,7 @@ theorem c20_convert_reversible (p : PData K) (aL aT aM bL bT bM : K)
     (hL : bL ≠ 0) (hT : bT ≠ 0) (hM : bM ≠ 0) (hL' : aL ≠ 0) (hT' : aT ≠ 0) (hM' : aM ≠ 0) :
     convertParticle (convertParticle p aL aT aM bL bT bM) bL bT bM aL aT aM = p := by
   cases p
-  simp only [convertParticle, convertMass, convertLength, convertVel, convertAcc, sc_hmul, sc_hdiv]
+  simp only [convertParticle, convertMass, convertLength, convertVel, convertAcc, p_powi, sc_hmul, sc_hdiv]
   congr 1 <;> field_simp
 
 /-- the orbital period in seconds, `2π √(a³/(G m)) · T`, does not depend on the unit system
@@ -69,21 +73,18 @@ theorem c20_period_invariant (g a m L T M L' T' M' : K)
     (hL : L ≠ 0) (hT : T ≠ 0) (hM : M ≠ 0) (hL' : L' ≠ 0) (hT' : T' ≠ 0) (hM' : M' ≠ 0) :
     (convertLength a L L') ^ 3 / (convertG g L' T' M' * convertMass m M M') * T' ^ 2 =
       a ^ 3 / (convertG g L T M * m) * T ^ 2 := by
-  simp only [convertG, convertMass, convertLength, sc_hmul, sc_hdiv]
+  simp only [convertG, convertMass, convertLength, p_powi, sc_hmul, sc_hdiv]
   field_simp
 
 /-- `yr2pi = √(au³/GM_sun)` and `msun = GM_sun/G_SI` give `G = 1` exactly with lengths in au
     (`s` is any square root of `au³/GM_sun`) -/
 theorem c20_G_one_au_yr2pi_msun (g au gm s : K) (hg : g ≠ 0) (hau : au ≠ 0) (hgm : gm ≠ 0)
     (hs : s * s = au ^ 3 / gm) : convertG g au s (gm / g) = 1 := by
-  simp only [convertG, sc_hmul, sc_hdiv]
-  rw [hs]; field_simp
+  simp only [convertG, p_powi, sc_hmul, sc_hdiv]
+  rw [pow_two, hs]; field_simp
 end
-end RV.Units
 
 /-! ## 2. units: the tables of rebound/units.py (regenerated every run) -/
-namespace RV.Units
-open RV.Gen.C20
 
 /-- the translator understood every expression, and the extracted tables name exactly the
     units of the reference (a unit that disappears from the extraction, or a new unit
@@ -159,11 +160,8 @@ theorem c20_units_G_one :
         Within (ms / ma) (toQ refMsunInMassist.1) (toQ refMsunInMassist.2)) := by
   decide +kernel
 
-end RV.Units
 
 /-! ## 3. quaternion algebra (any field) -/
-namespace RV.Rot
-open RV
 section
 variable {K : Type} [Field K]
 
@@ -265,13 +263,27 @@ theorem c20_rotate_simulation (ms : List K) (ps : List (V3 K × V3 K)) (q : Quat
   exact ⟨hK ms ps, hL ms ps, by rw [hL]; exact c20_rotate_preserves_dot _ _ q h⟩
 
 end
-end RV.Rot
 
 /-! ## 4. rotation constructors (linearly ordered field with abstract sqrt / sin / cos) -/
-namespace RV.Rot
-open RV
 section
 variable {K : Type} [Field K] [LinearOrder K] [IsStrictOrderedRing K] [RealFns K]
+
+/-- `reb_vec3d_normalize` and `reb_rotation_normalize` return unit length for non-zero input
+    (and leave unit vectors alone) -/
+theorem c20_normalize (hs : SqrtSpec K) (v : V3 K) (q : Quat K) :
+    (len2 v ≠ 0 → len2 (normalize v) = 1) ∧ (len2 v = 1 → normalize v = v) ∧
+    (qlen2 q ≠ 0 → qlen2 (qnormalize q) = 1) := by
+  refine ⟨normalize_unit hs v, normalize_of_unit hs v, fun hq => ?_⟩
+  have hnn : 0 ≤ qlen2 q := by
+    simp only [qlen2, sc_hadd, sc_hmul]
+    nlinarith [mul_self_nonneg q.r, mul_self_nonneg q.ix, mul_self_nonneg q.iy, mul_self_nonneg q.iz]
+  obtain ⟨h0, h1⟩ := hs (qlen2 q) hnn
+  have hne := sqrt_ne_zero hs hnn hq
+  simp only [qnormalize, r_sqrt, sc_hmul, sc_hdiv, sc_one]
+  generalize RealFns.sqrt (qlen2 q) = s at *
+  simp only [qlen2, sc_hadd, sc_hmul] at h1 ⊢
+  field_simp
+  linear_combination -h1
 
 /-- angle-axis: for every non-zero axis the result is a unit quaternion and acts by Rodrigues'
     formula with `C = c² − s²`, `S = 2 s c` (`c`, `s` = cos, sin of half the angle; over ℝ these
@@ -393,11 +405,70 @@ theorem c20_from_to_F7_negation (hs : SqrtSpec K) :
   norm_num at this
 
 end
-end RV.Rot
+
+/-! ### to_new_axes -/
+section
+variable {K : Type} [Field K] [LinearOrder K] [IsStrictOrderedRing K] [RealFns K]
+
+/-- the contract of `reb_rotation_init_to_new_axes` / `Rotation.to_new_axes`: a unit quaternion
+    that takes the direction of `newz` to the z axis and the direction of the component of `newx`
+    perpendicular to `newz` to the x axis ("this function will only take the component of newx
+    that is perpendicular to newz") -/
+def NewAxesSpec (f : V3 K → V3 K → Quat K) : Prop :=
+  ∀ newz newx : V3 K, len2 newz ≠ 0 →
+    len2 (vadd newx (vmul (normalize newz) (-(dot (normalize newz) newx)))) ≠ 0 →
+    qlen2 (f newz newx) = 1 ∧ rotate (normalize newz) (f newz newx) = ez ∧
+    rotate (normalize (vadd newx (vmul (normalize newz) (-(dot (normalize newz) newx))))) (f newz newx) = ex
+
+/-- full statement, true with the repairs of fixes/F7.diff and fixes/F18.diff, including `newz`
+    antiparallel to z and `newx` ending up antiparallel to x -/
+theorem c20_to_new_axes_repaired_full (hs : SqrtSpec K) :
+    NewAxesSpec (toNewAxesFixed : V3 K → V3 K → Quat K) := by
+  intro newz newx hz hx
+  exact toNewAxes_spec hs antiparallelFixed (antiAxes_fixed hs) newz newx hz hx
+
+/-- as found: the statement holds when `newz` is a unit vector or `newx` is perpendicular to it
+    (the extra hypothesis is finding F18).  The antiparallel branch of from_to (F7) is harmless
+    here: to_new_axes only meets it with axis-aligned vectors -/
+theorem c20_to_new_axes_partial (hs : SqrtSpec K) (newz newx : V3 K) (hz : len2 newz ≠ 0)
+    (hx : len2 (vadd newx (vmul (normalize newz) (-(dot (normalize newz) newx)))) ≠ 0)
+    (hF18 : len2 newz = 1 ∨ dot newz newx = 0) :
+    qlen2 (toNewAxes newz newx) = 1 ∧ rotate (normalize newz) (toNewAxes newz newx) = ez ∧
+    rotate (normalize (vadd newx (vmul (normalize newz) (-(dot (normalize newz) newx)))))
+      (toNewAxes newz newx) = ex := by
+  have e : toNewAxes newz newx = toNewAxesWith (ftOf antiparallelAsFound) true newz newx :=
+    toNewAxesWith_dot_eq hs _ newz newx hF18
+  rw [e]
+  exact toNewAxes_spec hs antiparallelAsFound antiAxes_asFound newz newx hz hx
+
+/-- **F18**: the full statement is false of the source as found — whenever the wrongly
+    orthogonalised `newx − (newz·newx) ẑ` keeps a component along `newz`, `newz` is not taken to the
+    z axis; witness `newz = (0,0,2)`, `newx = (1,0,1)` -/
+theorem c20_to_new_axes_F18_negation (hs : SqrtSpec K) :
+    (∀ newz newx : V3 K, len2 newz ≠ 0 →
+      dot (vadd newx (vmul (normalize newz) (-(dot newz newx)))) (normalize newz) ≠ 0 →
+      rotate (normalize newz) (toNewAxes newz newx) ≠ ez) ∧
+    ¬ NewAxesSpec (toNewAxes : V3 K → V3 K → Quat K) := by
+  have gen : ∀ newz newx : V3 K, len2 newz ≠ 0 →
+      dot (vadd newx (vmul (normalize newz) (-(dot newz newx)))) (normalize newz) ≠ 0 →
+      rotate (normalize newz) (toNewAxes newz newx) ≠ ez :=
+    fun newz newx hz hw => toNewAxes_asfound_misses hs antiparallelAsFound antiAxes_asFound newz newx hz hw
+  refine ⟨gen, fun hspec => ?_⟩
+  have l : len2 (⟨0, 0, 2⟩ : V3 K) = 4 := by simp [len2, dot]; norm_num
+  have hz : len2 (⟨0, 0, 2⟩ : V3 K) ≠ 0 := by rw [l]; norm_num
+  have zn : normalize (⟨0, 0, 2⟩ : V3 K) = ⟨0, 0, 1⟩ := by
+    rw [normalize_def, l, sqrt_four hs]; ext <;> simp
+  have hw : dot (vadd (⟨1, 0, 1⟩ : V3 K) (vmul (normalize ⟨0, 0, 2⟩) (-(dot (⟨0, 0, 2⟩ : V3 K) ⟨1, 0, 1⟩))))
+      (normalize ⟨0, 0, 2⟩) ≠ 0 := by
+    rw [zn]; simp [dot, vadd, vmul]; norm_num
+  have hx : len2 (vadd (⟨1, 0, 1⟩ : V3 K) (vmul (normalize ⟨0, 0, 2⟩)
+      (-(dot (normalize (⟨0, 0, 2⟩ : V3 K)) ⟨1, 0, 1⟩)))) ≠ 0 := by
+    rw [zn]; simp [len2, dot, vadd, vmul]
+  exact gen _ _ hz hw (hspec _ _ hz hx).2.1
+
+end
 
 /-! ## 5. frame shifts, scaling, adding and subtracting simulations (every N) -/
-namespace RV.Frame
-open RV
 section
 variable {K : Type} [Field K] [LinearOrder K] [IsStrictOrderedRing K]
 
@@ -519,13 +590,66 @@ theorem c20_var2_is_second_derivative (rows : List (Row2 K)) (hM : rows2Mass row
     ring
 
 end
-end RV.Frame
 
 /-! ## 6. the hypotheses are satisfiable (non-vacuity) -/
-namespace RV.Frame
 /-- a three-body set with a massless particle in front meets the hypotheses of the COM theorems -/
 example : (∀ p ∈ [((0:ℚ), (5:ℚ)), (1, 2), (1/1000, -7)], 0 ≤ p.1) ∧
     0 < msum [((0:ℚ), (5:ℚ)), (1, 2), (1/1000, -7)] := by
   refine ⟨?_, by norm_num [msum]⟩
   intro p hp; simp at hp; rcases hp with rfl | rfl | rfl <;> norm_num
-end RV.Frame
+
+/-! ## 7. the real numbers: `SqrtSpec` and `TrigSpec` hold for `Real.sqrt`, `Real.sin`, `Real.cos`,
+    so every theorem of section 4 applies to ℝ; with the double-angle formulas the orbital
+    constructor is literally Murray & Dermott's matrix -/
+
+noncomputable instance realFns : RealFns ℝ := ⟨Real.sqrt, Real.sin, Real.cos, Real.arccos⟩
+
+theorem c20_real_sqrt_spec : SqrtSpec ℝ := fun x hx => ⟨Real.sqrt_nonneg x, Real.mul_self_sqrt hx⟩
+
+theorem c20_real_trig_spec : TrigSpec ℝ := fun a => by
+  show Real.sin a * Real.sin a + Real.cos a * Real.cos a = 1
+  have := Real.sin_sq_add_cos_sq a
+  nlinarith [this]
+
+/-- over ℝ the repaired from-to constructor meets its contract for all non-zero vectors -/
+theorem c20_from_to_repaired_full_real : FromToSpec (fromToFixed : V3 ℝ → V3 ℝ → Quat ℝ) :=
+  c20_from_to_repaired_full c20_real_sqrt_spec
+
+/-- over ℝ the constructor as found violates it (F7) -/
+theorem c20_from_to_F7_negation_real : ¬ FromToSpec (fromTo : V3 ℝ → V3 ℝ → Quat ℝ) :=
+  (c20_from_to_F7_negation c20_real_sqrt_spec).2
+
+/-- over ℝ: to_new_axes repaired meets its contract; as found it does not (F18) -/
+theorem c20_to_new_axes_real :
+    NewAxesSpec (toNewAxesFixed : V3 ℝ → V3 ℝ → Quat ℝ) ∧ ¬ NewAxesSpec (toNewAxes : V3 ℝ → V3 ℝ → Quat ℝ) :=
+  ⟨c20_to_new_axes_repaired_full c20_real_sqrt_spec, (c20_to_new_axes_F18_negation c20_real_sqrt_spec).2⟩
+
+/-- Murray & Dermott (2.119)-(2.121) over ℝ, with the cosines and sines of Ω, i, ω themselves -/
+theorem c20_orbit_real (Om inc om : ℝ) (v : V3 ℝ) :
+    qlen2 (orbit Om inc om) = 1 ∧
+    rotate v (orbit Om inc om) =
+      ⟨(Real.cos Om * Real.cos om - Real.sin Om * Real.sin om * Real.cos inc) * v.x
+          + (-Real.cos Om * Real.sin om - Real.sin Om * Real.cos om * Real.cos inc) * v.y
+          + (Real.sin Om * Real.sin inc) * v.z,
+       (Real.sin Om * Real.cos om + Real.cos Om * Real.sin om * Real.cos inc) * v.x
+          + (-Real.sin Om * Real.sin om + Real.cos Om * Real.cos om * Real.cos inc) * v.y
+          + (-Real.cos Om * Real.sin inc) * v.z,
+       (Real.sin om * Real.sin inc) * v.x + (Real.cos om * Real.sin inc) * v.y + Real.cos inc * v.z⟩ := by
+  have hc : ∀ a : ℝ, Real.cos a = Real.cos (a / 2) * Real.cos (a / 2) - Real.sin (a / 2) * Real.sin (a / 2) := by
+    intro a
+    have h := Real.cos_two_mul (a / 2)
+    have h2 := Real.sin_sq_add_cos_sq (a / 2)
+    rw [show 2 * (a / 2) = a by ring] at h
+    nlinarith [h, h2]
+  have hsn : ∀ a : ℝ, Real.sin a = 2 * Real.sin (a / 2) * Real.cos (a / 2) := by
+    intro a
+    have h := Real.sin_two_mul (a / 2)
+    rw [show 2 * (a / 2) = a by ring] at h
+    exact h
+  have := c20_orbit c20_real_sqrt_spec c20_real_trig_spec Om inc om v
+  simp only at this
+  refine ⟨this.1, ?_⟩
+  rw [this.2, hc Om, hc inc, hc om, hsn Om, hsn inc, hsn om]
+  rfl
+
+end RV.C20
